@@ -62,8 +62,84 @@ func runC21(c *Ctx) {
 	if fn := c.Need("isaac/database.(*LeveldbBlockWrite).Write"); fn != nil {
 		c.Exists(fn, "Write flushes the batched records", c.ReturnsD(fn, 0, "db.batchDone()"), 1)
 	}
-	// R21.2 --------------------------------------------------------------------------------------
-	c.Rule("R21.2", "MustPass")
+	loaderGateRules(c, "R21.2")
+	// R21.3 --------------------------------------------------------------------------------------
+	c.Rule("R21.3", "MustPass")
+	if fn := c.Need("isaac/database.(*LeveldbPermanent).mergeTempDatabaseFromLeveldb"); fn != nil {
+		// the write that makes the block visible to loadLastBlockMap must come after worker.Wait():
+		// some Put/Batch whose key is restricted to the block-map prefix must exist after the Wait.
+		wait := c.CallsD(fn, "*.Wait()")
+		ok := false
+		if len(wait) == 1 {
+			after := reach(fn, wait[0], nil)
+			for in := range after.reached {
+				if cc := callCommon(in); cc != nil && (strings.HasSuffix(CalleeFullName(cc), ".Batch") || strings.HasSuffix(CalleeFullName(cc), ".Put")) &&
+					strings.HasPrefix(CalleeFullName(cc), "(*storage/leveldb.") {
+					ok = true
+				}
+			}
+		}
+		c.Report(fn, "the block map (what the loader keys on) is written after all other batches were waited for", fn.Pos(), ok,
+			"all keys of the temp database, including the block map and the suffrage proofs, are copied in parallel batches; no write follows worker.Wait()")
+		c.MP(fn, "last-value caches updated only after every batch was written", c.CallsD(fn, "db.updateLast(*)"), 1, GOk("*.Wait()"))
+		c.MP(fn, "success only after every batch was written", c.SuccessReturns(fn), 1, GOk("*.Wait()"))
+	}
+	// the final flush of the block writer's batch function: nothing that was queued may be dropped
+	c.Rule("R21.1", "MustPass")
+	batchSlotSaveRules(c)
+}
+
+// batchSlotSaveRules: a batch leaves the rotating slot of Storage.BatchFunc only through the save
+// function, and the final flush is skipped only for an empty batch.
+func batchSlotSaveRules(c *Ctx) {
+	for _, k := range []string{"batchAddFunc", "batchDoneFunc"} {
+		parent := c.Need("storage/leveldb.(*Storage)." + k)
+		if parent == nil {
+			continue
+		}
+		var cl *ssa.Function
+		for _, f := range WithClosures(parent) {
+			if len(c.CallsD(f, "call(savef)(batch)")) > 0 {
+				cl = f
+			}
+		}
+		if cl == nil {
+			c.Unresolved(parent, k+": slot callback", "closure calling savef(batch) not found")
+			continue
+		}
+		var rotate, ignore []ssa.Instruction
+		for _, r := range Returns(cl) {
+			if len(r.Results) != 2 {
+				continue
+			}
+			switch b, e := c.D(RetVal(r, 0)), c.D(RetVal(r, 1)); {
+			case b != "nil":
+				rotate = append(rotate, r)
+				c.Report(cl, k+": a replaced batch is handed to the save function", c.InstrPos(r), e == "call(doBatch)(call(savef)(batch))", e)
+			case e == "util.ErrLockedSetIgnore":
+				ignore = append(ignore, r)
+			}
+		}
+		c.Exists(cl, k+": the slot is rotated through a save", rotate, 1)
+		if k == "batchDoneFunc" {
+			c.MP(cl, "final flush is skipped only for an empty batch", ignore, 1, GTrue("isempty"), GCmp("batch.Len()", "<", "1"))
+		}
+	}
+	if fn := c.Need("storage/leveldb.(*Storage).BatchFuncWithNewBatch"); fn != nil {
+		var sv *ssa.Function
+		for _, f := range WithClosures(fn) {
+			if len(c.CallsD(f, "st.Batch(batch.LBatch(), wo)")) > 0 {
+				sv = f
+			}
+		}
+		c.Report(fn, "save function writes the batch it was given", fn.Pos(), sv != nil, "st.Batch(batch.LBatch(), wo)")
+	}
+}
+
+// loaderGateRules (shared by C20 and C21): at start-up a temp database is used only if it opened
+// and carries the merged marker.
+func loaderGateRules(c *Ctx, rule string) {
+	c.Rule(rule, "MustPass")
 	if fn := c.Need("isaac/database.loadTemp"); fn != nil {
 		tmp := "isaacdatabase.NewTempLeveldbFromPrefix(st, append(↺, var:varargs[:])[ι], encs, enc)"
 		var foundPhi *ssa.Phi
@@ -100,26 +176,5 @@ func runC21(c *Ctx) {
 	}
 	if fn := c.Need("isaac/database.(*Center).load"); fn != nil {
 		c.ArgIs(fn, "temps loaded above the permanent database's last height", c.CallsTo(fn, "isaac/database.loadTemps"), 1, 1, "φ(-1|db.perm.LastBlockMap()#0.Manifest().Height())", "φ(base.NilHeight|db.perm.LastBlockMap()#0.Manifest().Height())")
-	}
-	// R21.3 --------------------------------------------------------------------------------------
-	c.Rule("R21.3", "MustPass")
-	if fn := c.Need("isaac/database.(*LeveldbPermanent).mergeTempDatabaseFromLeveldb"); fn != nil {
-		// the write that makes the block visible to loadLastBlockMap must come after worker.Wait():
-		// some Put/Batch whose key is restricted to the block-map prefix must exist after the Wait.
-		wait := c.CallsD(fn, "*.Wait()")
-		ok := false
-		if len(wait) == 1 {
-			after := reach(fn, wait[0], nil)
-			for in := range after.reached {
-				if cc := callCommon(in); cc != nil && (strings.HasSuffix(CalleeFullName(cc), ".Batch") || strings.HasSuffix(CalleeFullName(cc), ".Put")) &&
-					strings.HasPrefix(CalleeFullName(cc), "(*storage/leveldb.") {
-					ok = true
-				}
-			}
-		}
-		c.Report(fn, "the block map (what the loader keys on) is written after all other batches were waited for", fn.Pos(), ok,
-			"all keys of the temp database, including the block map and the suffrage proofs, are copied in parallel batches; no write follows worker.Wait()")
-		c.MP(fn, "last-value caches updated only after every batch was written", c.CallsD(fn, "db.updateLast(*)"), 1, GOk("*.Wait()"))
-		c.MP(fn, "success only after every batch was written", c.SuccessReturns(fn), 1, GOk("*.Wait()"))
 	}
 }
